@@ -18,6 +18,8 @@ extern "C" int xor_check_base(int vects, int len, void **array);
 extern "C" int pq_check_base(int vects, int len, void **array);
 extern "C" int mem_zero_detect_base(void *buf, size_t n);
 
+void (*g_kern_yield)(void *) = nullptr; // scheduler seam: called at every API-call boundary
+__thread void *t_kern_yield_arg = nullptr;
 int g_kern_portable = 0; // 1: keep only implementation-independent observables in the history (C16 cross-configuration comparison)
 
 namespace
@@ -404,9 +406,12 @@ struct Kern {
                 const Json &m = plan.at("mem");
                 fill = (uint64_t) m.geti("fill");
                 regs = (uint64_t) m.geti("regs");
-                for (auto &o : plan.at("ops").a)
+                for (auto &o : plan.at("ops").a) {
                         if (!op(o))
                                 return;
+                        if (g_kern_yield && t_kern_yield_arg)
+                                g_kern_yield(t_kern_yield_arg);
+                }
         }
 };
 } // namespace
